@@ -28,6 +28,10 @@ structure Aux (a : Actor) (s : St) : Prop where
 def Inv (a : Actor) (s : St) : Prop :=
   a.phase = .done ∨ (stageRel a.phase s.stage ∧ Aux a s)
 
+theorem Aux.congr {a a' : Actor} {s : St} (h1 : a'.sigVal = a.sigVal) (h2 : a'.stopVal = a.stopVal)
+    (h3 : a'.msgQ = a.msgQ) (hx : Aux a s) : Aux a' s :=
+  ⟨by rw [h1]; exact hx.kill, by rw [h2]; exact hx.stop, by rw [h3]; exact hx.drain⟩
+
 /-! ### neutral events -/
 
 @[simp] theorem next_sendRet (s : St) (b : Bool) (m : Nat) (ok : Bool) : next s (.sendRet b m ok) = .ok s := rfl
@@ -38,6 +42,12 @@ def Inv (a : Actor) (s : St) : Prop :=
 @[simp] theorem next_aborted (s : St) : next s .aborted = .ok s := rfl
 @[simp] theorem next_dropped (s : St) : next s .dropped = .ok s := rfl
 @[simp] theorem next_join (s : St) (r : JoinRes) : next s (.join r) = .ok s := rfl
+@[simp] theorem next_fxJoin (s : St) (g : String) : next s (.fxJoin g) = .ok s := rfl
+@[simp] theorem next_fxReply (s : St) (k v : Nat) (b : Bool) : next s (.fxReply k v b) = .ok s := rfl
+@[simp] theorem next_fxForget (s : St) (k : Nat) (b : Bool) : next s (.fxForget k b) = .ok s := rfl
+@[simp] theorem next_callRet (s : St) (k : Nat) (r : CallRes) : next s (.callRet k r) = .ok s := rfl
+@[simp] theorem next_waitRet (s : St) (w : Nat) (b : Bool) : next s (.waitRet w b) = .ok s := rfl
+@[simp] theorem next_snap (s : St) (sn : Snap) : next s (.snap sn) = .ok s := rfl
 @[simp] theorem next_stopRet (s : St) (b : Bool) (r : Reason) (ok : Bool) :
     next s (.stopRet b r ok) = .ok (if ok then { s with stopReq := true } else s) := by
   cases ok <;> rfl
@@ -118,6 +128,16 @@ theorem listen_sim (a : Actor) (s : St) (hst : s.stage = .run) (hx : Aux a s) :
       · rename_i hq
         split
         · rename_i m q hm
+          refine ⟨{ s with stage := .hOpen .handle }, ?_, ?_⟩
+          · simp [accepts_cons, next, hst]
+          · right
+            refine ⟨by simp [stageRel], ?_, ?_, ?_⟩
+            · simp [hk]
+            · simp_all
+            · intro h
+              apply hx.drain
+              simp_all
+        · rename_i k q hm
           refine ⟨{ s with stage := .hOpen .handle }, ?_, ?_⟩
           · simp [accepts_cons, next, hst]
           · right
@@ -225,6 +245,20 @@ theorem runFx_sim (a : Actor) (s : St) (f : Fx) (hx : Aux a s) :
   | killSelf =>
     refine ⟨_, by simp [runFx, accepts_cons], apiKill_phase a, ?_, apiKill_aux hx⟩
     split <;> rfl
+  | joinGroup g =>
+    refine ⟨s, by simp [runFx, accepts_cons], ?_, rfl, ?_⟩
+    · simp only [runFx]; split <;> rfl
+    · simp only [runFx]; split <;> exact hx.congr (by rfl) (by rfl) (by rfl)
+  | reply k v =>
+    simp only [runFx]
+    split
+    · exact ⟨s, by simp [accepts_cons], rfl, rfl, hx.congr (by rfl) (by rfl) (by rfl)⟩
+    · exact ⟨s, by simp [accepts_cons], rfl, rfl, hx⟩
+  | forget k =>
+    simp only [runFx]
+    split
+    · exact ⟨s, by simp [accepts_cons], rfl, rfl, hx.congr (by rfl) (by rfl) (by rfl)⟩
+    · exact ⟨s, by simp [accepts_cons], rfl, rfl, hx⟩
 
 theorem runFxs_sim (fs : List Fx) (a : Actor) (s : St) (hx : Aux a s) :
     Sim next (FxRel a.phase s.stage) s (runFxs a fs) := by
@@ -305,10 +339,6 @@ theorem runSeg_sim (a : Actor) (s : St) (cb : Cb) (sg : Seg) (k : Actor → Res 
 
 
 /-! ### the ops -/
-
-theorem Aux.congr {a a' : Actor} {s : St} (h1 : a'.sigVal = a.sigVal) (h2 : a'.stopVal = a.stopVal)
-    (h3 : a'.msgQ = a.msgQ) (hx : Aux a s) : Aux a' s :=
-  ⟨by rw [h1]; exact hx.kill, by rw [h2]; exact hx.stop, by rw [h3]; exact hx.drain⟩
 
 theorem Inv.congr {a a' : Actor} {s : St} (h0 : a'.phase = a.phase) (h1 : a'.sigVal = a.sigVal)
     (h2 : a'.stopVal = a.stopVal) (h3 : a'.msgQ = a.msgQ) (h : Inv a s) : Inv a' s := by
@@ -444,11 +474,13 @@ theorem next_enter_of_isOpen (s : St) (cb : Cb) (a : Arg) (h : s.stage.isOpen = 
     next s (.enter cb a) = .error "c01.overlap" := by
   cases hs : s.stage <;> simp [hs, Stage.isOpen] at h <;> cases cb <;> simp [next, hs]
 
-theorem opSpawn_sim (a : Actor) (s : St) (sup : Option Nat) (h : Inv a s) :
-    Sim next Inv s (opSpawn a sup) := by
+theorem opSpawn_sim (a : Actor) (s : St) (sup : Option Nat) (name : Option String) (nameFree : Bool)
+    (h : Inv a s) : Sim next Inv s (opSpawn a sup name nameFree) := by
   unfold opSpawn
   split
   · rename_i hph
+    split
+    · exact ⟨s, by simp [accepts_cons], h⟩
     rcases h with h | ⟨hs, hx⟩
     · simp [hph] at h
     · rw [hph] at hs
@@ -577,11 +609,27 @@ theorem envOp_sim (a : Actor) (s : St) (op : AOp) (h : Inv a s) : Sim next Inv s
   | treeTaken => exact opTreeTaken_sim a s h
   | kidAdd c => exact ⟨s, rfl, h.congr (by rfl) (by rfl) (by rfl) (by rfl)⟩
   | kidDel c => exact ⟨s, rfl, h.congr (by rfl) (by rfl) (by rfl) (by rfl)⟩
+  | call k =>
+    refine ⟨s, by simp [Actor.envOp, accepts_cons], ?_⟩
+    simp only [Actor.envOp, apiCall]
+    (repeat' split) <;> first
+      | exact h
+      | (rcases h with h | ⟨hs, hx⟩
+         · exact Or.inl h
+         · exact Or.inr ⟨hs, by simpa using hx.kill, by simpa using hx.stop, by simpa using hx.drain⟩)
+  | pollCall k =>
+    simp only [Actor.envOp]
+    split
+    · exact ⟨s, by simp [accepts_cons], h.congr (by rfl) (by rfl) (by rfl) (by rfl)⟩
+    · exact ⟨s, by simp [accepts_cons], h.congr (by rfl) (by rfl) (by rfl) (by rfl)⟩
+    · exact ⟨s, by simp [accepts_cons], h⟩
+    · exact ⟨s, rfl, h⟩
+  | pollWait w => exact ⟨s, by simp [Actor.envOp, accepts_cons], h⟩
   | _ => exact ⟨s, rfl, h⟩
 
 theorem stepCore_sim (a : Actor) (s : St) (op : AOp) (h : Inv a s) : Sim next Inv s (a.stepCore op) := by
   cases op with
-  | spawn sup => exact opSpawn_sim a s sup h
+  | spawn sup name nameFree => exact opSpawn_sim a s sup name nameFree h
   | pollSpawn supOk => exact opPollSpawn_sim a s supOk h
   | dropSpawn => exact opDropSpawn_sim a s h
   | poll => exact opPoll_sim a s h
@@ -593,13 +641,8 @@ theorem stepCore_sim (a : Actor) (s : St) (op : AOp) (h : Inv a s) : Sim next In
     · exact ⟨s, rfl, h⟩
     · exact envOp_sim a s _ h
 
-theorem step_sim (a : Actor) (s : St) (op : AOp) (h : Inv a s) : Sim next Inv s (a.step op) := by
-  obtain ⟨s1, hacc, hinv⟩ := stepCore_sim a s op h
-  refine ⟨s1, ?_, hinv⟩
-  unfold Actor.step
-  simp only [evs_append]
-  rw [accepts_append next _ hacc]
-  split <;> simp [accepts_cons]
+theorem step_sim (a : Actor) (s : St) (op : AOp) (h : Inv a s) : Sim next Inv s (a.step op) :=
+  step_sim_of_core next next_supIs next_snap (stepCore_sim a s op h)
 
 theorem run_sim (ops : List AOp) (a : Actor) (s : St) (h : Inv a s) :
     ∃ s', accepts next s (a.run ops).2 = .ok s' ∧ Inv (a.run ops).1 s' := by
